@@ -73,6 +73,8 @@ fn frame_json(f: &Frame) -> Value {
         Frame::BulkString(b) => json!({"t": "bulk", "b": bytes_json(b)}),
         Frame::Null => json!({"t": "null"}),
         Frame::Array(items) => json!({"t": "array", "items": items.iter().map(frame_json).collect::<Vec<_>>()}),
+        #[allow(unreachable_patterns)]
+        _ => json!({"t": "other"}),
     }
 }
 
@@ -102,6 +104,9 @@ fn err_class(e: &FrameError) -> &'static str {
         FrameError::BadEncoding => "bad",
         FrameError::NotInteger(_) => "notint",
         FrameError::NotUtf8(_) => "utf8",
+        // (error variants are not fixed by any property: a new one is just another class)
+        #[allow(unreachable_patterns)]
+        _ => "other",
     }
 }
 
